@@ -210,6 +210,19 @@ func c13MakeChains(t *testing.T, p *c13PKI) map[string]*c13Chain {
 			if c13b(err == nil) != string(c.vBits[mask]) {
 				t.Fatalf("c13 self-check: chain %s mask %d: x509 result depends on order/repetition of AddCert", c.kind, mask)
 			}
+			// a valid path ends at one root and stays valid when the other roots become intermediates
+			// (hypothesis of C13_authenticated_chains_to_matched_anchor)
+			if c.vBits[mask] == '1' {
+				found := false
+				for j := 0; j < n; j++ {
+					if mask&(1<<j) != 0 && c.vBits[1<<j] == '1' {
+						found = true
+					}
+				}
+				if !found {
+					t.Fatalf("c13 self-check: chain %s mask %d verifies but no single root of it does", c.kind, mask)
+				}
+			}
 		}
 		// self-check of the ground truth: per-anchor validation with the whole presented chain as
 		// intermediates must agree with how the chain was constructed
@@ -665,7 +678,7 @@ func TestVerifC13Verify(t *testing.T) {
 		return
 	}
 
-	rng := vh.NewRng(vh.Seed() + 1300)
+	rng := vh.NewRng(vh.Seed() + 1300).Fork() // Fork: consecutive seeds of vh.NewRng give the same stream shifted by one draw
 	types := c13StatedRecTypes()
 	stated := []string{"L", "LI", "LIR", "X", "W"}
 
@@ -681,23 +694,51 @@ func TestVerifC13Verify(t *testing.T) {
 	}
 	out.Note(fmt.Sprintf("verify: exhaustive sizes 0-1 over %d record types x %d chains x handshake", len(types), len(c13ChainKinds)))
 
-	// (2) thorough: every multiset of size 2 over the stated record types, the five stated chains,
-	// completed handshake (without a handshake the verdict only depends on emptiness: sampled below)
+	// (2) every multiset of size 2 over the stated record types, completed handshake (without a
+	// handshake the verdict only depends on emptiness: sampled below): quick on the full chain,
+	// thorough on all nine chains
+	size2 := []string{"LIR"}
 	if vh.Thorough() {
-		cnt := 0
-		for i := range types {
-			for j := i; j < len(types); j++ {
-				pair := []c13Rec{types[i], types[j]}
-				if rng.Bool() {
-					pair[0], pair[1] = pair[1], pair[0]
-				}
-				for _, ck := range stated {
-					w.verifyCase(out, pair, ck, true, true)
-					cnt++
+		size2 = c13ChainKinds
+	}
+	cnt := 0
+	for i := range types {
+		for j := i; j < len(types); j++ {
+			pair := []c13Rec{types[i], types[j]}
+			if rng.Bool() {
+				pair[0], pair[1] = pair[1], pair[0]
+			}
+			for _, ck := range size2 {
+				w.verifyCase(out, pair, ck, true, true)
+				cnt++
+			}
+		}
+	}
+	out.Note(fmt.Sprintf("verify: exhaustive size 2 on chains %v: %d cases", size2, cnt))
+
+	// (2b) thorough: every multiset of size 3 over a reduced alphabet (one unusable and the two
+	// usable usages, all selectors classes, one usable and one unusable matching type, all four
+	// data kinds), the five stated chains
+	if vh.Thorough() {
+		var red []c13Rec
+		for _, r := range types {
+			if (r.usage == 1 || r.usage == 2 || r.usage == 3) && (r.mt == 1 || r.mt == 3) {
+				red = append(red, r)
+			}
+		}
+		cnt = 0
+		for i := range red {
+			for j := i; j < len(red); j++ {
+				for k := j; k < len(red); k++ {
+					tri := c13Shuffle(rng, []c13Rec{red[i], red[j], red[k]})
+					for _, ck := range stated {
+						w.verifyCase(out, tri, ck, true, true)
+						cnt++
+					}
 				}
 			}
 		}
-		out.Note(fmt.Sprintf("verify: exhaustive size 2: %d cases", cnt))
+		out.Note(fmt.Sprintf("verify: exhaustive size 3 over %d record types: %d cases", len(red), cnt))
 	}
 
 	// (3) sampled: sizes 0-6 (the property stops at 4), all chains, wider parameter values, data
@@ -901,7 +942,7 @@ func TestVerifC13CheckConn(t *testing.T) {
 		return
 	}
 
-	rng := vh.NewRng(vh.Seed() + 1301)
+	rng := vh.NewRng(vh.Seed() + 1301).Fork() // Fork: consecutive seeds of vh.NewRng give the same stream shifted by one draw
 	types := c13StatedRecTypes()
 	// every discovery error kind x TLS state x a few chains: the fail-closed table
 	for _, fe := range c13FutErrs {
@@ -1324,7 +1365,7 @@ func TestVerifC13Discover(t *testing.T) {
 		}
 		return
 	}
-	rng := vh.NewRng(vh.Seed() + 1302)
+	rng := vh.NewRng(vh.Seed() + 1302).Fork() // Fork: consecutive seeds of vh.NewRng give the same stream shifted by one draw
 	all := c13AllZones()
 	// the zone shapes are few: all of them, every run (records inside vary with the seed)
 	for _, z := range all {
@@ -1339,6 +1380,26 @@ func TestVerifC13Discover(t *testing.T) {
 			}
 		}
 	}
+	// the zones in which records are actually found, more often
+	good := c13GoodZones(all)
+	n := vh.N(4000) / 40
+	for i := 0; i < n; i++ {
+		z := good[rng.Intn(len(good))]
+		w.fillZoneRecs(rng, &z)
+		w.discCase(t, out, z)
+	}
+}
+
+// zones with a secure host and a signed RRset that is consulted
+func c13GoodZones(all []c13Zone) []c13Zone {
+	var good []c13Zone
+	for _, z := range all {
+		zt := c13ZoneTruthOf(z)
+		if zt.hostSecure && !zt.lookupFails && (zt.secureR || z.m == "s") {
+			good = append(good, z)
+		}
+	}
+	return good
 }
 
 // ---------------------------------------------------------------- PrepareConn + CheckConn against a DNS server
@@ -1400,7 +1461,7 @@ func TestVerifC13Conn(t *testing.T) {
 		}
 		return
 	}
-	rng := vh.NewRng(vh.Seed() + 1303)
+	rng := vh.NewRng(vh.Seed() + 1303).Fork() // Fork: consecutive seeds of vh.NewRng give the same stream shifted by one draw
 	all := c13AllZones()
 	reps := 1
 	if vh.Thorough() {
@@ -1418,13 +1479,7 @@ func TestVerifC13Conn(t *testing.T) {
 		}
 	}
 	// the zones in which records are actually found, more often: secure host, signed RRset
-	var good []c13Zone
-	for _, z := range all {
-		zt := c13ZoneTruthOf(z)
-		if zt.hostSecure && !zt.lookupFails && (zt.secureR || z.m == "s") {
-			good = append(good, z)
-		}
-	}
+	good := c13GoodZones(all)
 	n := vh.N(4000) / 20
 	for i := 0; i < n; i++ {
 		z := good[rng.Intn(len(good))]
